@@ -30,6 +30,7 @@ BM = "microgrid._power_distributing._component_managers._battery_manager"
 MANAGER = "BatteryManager"
 GET_BOUNDS = "_get_bounds"
 RESULT_CLASSES = ("OutOfBounds", "Error")
+NEG = "neg:"
 
 
 class AdmInterp(OrderInterp):
@@ -73,6 +74,51 @@ class AdmInterp(OrderInterp):
         if isinstance(a, Atom) or isinstance(b, Atom):
             a, b = lift(a), lift(b)
         return super().compare_values(op, a, b, node)
+
+    # ------------------------------------------------------------ negation / abs of an order atom
+    # `-x` of an atom is the atom `neg:x`, kept in step with the facts about x: the order between two negated
+    # atoms (ZERO is its own negation) is the mirrored order of the atoms (-x < -y  iff  y < x); between a
+    # negated and a plain atom nothing but the consequences of their signs is known, so the run forks.
+    # `abs(x)` is the case split x >= 0 -> x, x < 0 -> -x.  (An asymmetric exclusion zone is then visible:
+    # a test on abs(power) against one bound says nothing about the bound of the other side.)
+    def _zero(self) -> Atom:
+        return self.globals.setdefault("__ZERO__", Atom("ZERO"))
+
+    def _neg(self, a: Atom) -> Atom:
+        if a.name == "ZERO":
+            return a
+        return Atom(a.name[len(NEG):]) if a.name.startswith(NEG) else Atom(NEG + a.name)
+
+    def unaryop(self, op: ast.unaryop, v: Any, node: ast.AST) -> Any:
+        if isinstance(op, ast.USub) and isinstance(v, Atom):
+            return self._neg(v)
+        if isinstance(op, ast.UAdd) and isinstance(v, Atom):
+            return v
+        return super().unaryop(op, v, node)
+
+    def builtin(self, name: str, pos: list[Any], kw: dict[str, Any], node: ast.AST) -> Any:
+        if name == "abs" and len(pos) == 1 and not kw and isinstance(pos[0], Atom):
+            return pos[0] if self.cmp3(pos[0], self._zero()) in (">", "=") else self._neg(pos[0])
+        return super().builtin(name, pos, kw, node)
+
+    def cmp3(self, a: Any, b: Any, label: str = "") -> str:
+        na, nb = self.aname(a), self.aname(b)
+        neg_a, neg_b = na.startswith(NEG), nb.startswith(NEG)
+        if (neg_a or neg_b) and na != nb:
+            if (neg_a or na == "ZERO") and (neg_b or nb == "ZERO"):
+                rel = super().cmp3(self._neg(Atom(nb)), self._neg(Atom(na)), label)   # mirrored
+                self.state.add(rel, na, nb)
+                if not self.state.consistent():
+                    from ..engine.absint import Infeasible
+                    raise Infeasible()
+                return rel
+            # one negated, one plain: fix both signs first, then whatever order the signs leave open
+            zero = self._zero()
+            if na != "ZERO":
+                self.cmp3(a, zero)
+            if nb != "ZERO":
+                self.cmp3(b, zero)
+        return super().cmp3(a, b, label)
 
     def sort_items(self, items: list[Any], reverse: bool, node: ast.AST) -> list[Any]:
         try:
